@@ -5,6 +5,8 @@ Reads one s-expression case per line (same syntax as coq/Extract/driver.ml), dri
 public mutwo API and prints one s-expression observation per line.
 """
 import sys
+import functools
+import copy
 import os
 import logging
 from fractions import Fraction
@@ -79,6 +81,40 @@ class TickDuration(cp.abc.Duration):
         self._tick_count = round(float(beat_count) * TICK)
 
 
+class RestMaker:
+    """a maker of rests that is an object, not a function"""
+
+    def __call__(self, duration):
+        return ce.Chronon(duration)
+
+
+class Section(ce.Consecution):
+    """a named sequence, `Section(title, events)`: new, empty sections can only be made through its own `empty_copy`"""
+
+    def __init__(self, title, iterable=(), **kwargs):
+        super().__init__(iterable, **kwargs)
+        self.title = title
+
+    def empty_copy(self):
+        return type(self)(self.title, [], tempo=copy.deepcopy(self.tempo), tag=self.tag)
+
+
+class BoxDuration(cp.abc.Duration):
+    """a user-defined duration whose state is a nested mutable object, updated in place by the setter (a copy that is only
+    shallow shares it)"""
+
+    def __init__(self, tick_count):
+        self._box = [int(tick_count)]
+
+    @property
+    def beat_count(self):
+        return round(self._box[0] / TICK, DIGITS)
+
+    @beat_count.setter
+    def beat_count(self, beat_count):
+        self._box[0] = round(float(beat_count) * TICK)
+
+
 def build(x):
     if x[0] == "L":
         d, l = int(x[1]), int(x[2])
@@ -86,6 +122,8 @@ def build(x):
         dur = Fraction(d, TICK) if l % 5 == 2 else d / TICK
         if l % 7 == 4 and l % 3 != 0 and l < 1000:
             dur = TickDuration(d)          # every seventh label: a user-defined Duration class
+        elif l % 7 == 5 and l % 3 != 0 and l < 1000:
+            dur = BoxDuration(d)           # ... and one that keeps its value inside a nested mutable object
         elif l % 3 == 0:
             # leaves may legitimately share one Duration object (a note-value constant reused across notes):
             # every third label takes its duration object from a per-case pool keyed by the value
@@ -107,8 +145,15 @@ def build(x):
             c.name = l
         _ROOTS.append(c)
         return c
+    kids = [build(k) for k in x[3:]]
+    if x[0] == "S" and len(kids) % 4 == 3:
+        # every fourth sequence (by its number of children) is a user subclass whose constructor takes a title first and
+        # which therefore overrides the documented hook `empty_copy`
+        r = Section("a section", kids, tag=mk_tag(int(x[1])), tempo=mk_tempo(int(x[2])))
+        _ROOTS.append(r)
+        return r
     cls = S if x[0] == "S" else P
-    r = cls([build(k) for k in x[3:]], tag=mk_tag(int(x[1])), tempo=mk_tempo(int(x[2])))
+    r = cls(kids, tag=mk_tag(int(x[1])), tempo=mk_tempo(int(x[2])))
     _ROOTS.append(r)
     return r
 
@@ -318,9 +363,13 @@ def apply_op1(t, op):
         if op[2] == "none":
             return t.extend_until(), []
         if prolong:
-            r = t.extend_until(T(op[2]))                 # prolong_chronon=True is the documented default: not passed
+            # the maker of the rest is an optional argument: mostly not passed; otherwise a callable that makes the same
+            # plain rest but is not a function with a name (a functools.partial, an object with __call__)
+            v = (int(op[2]) // 11) % 4
+            kw = {} if v < 2 else {"duration_to_white_space": functools.partial(ce.Chronon) if v == 2 else RestMaker()}
+            r = t.extend_until(T(op[2]), **kw)           # prolong_chronon=True is the documented default: not passed
             first = snap(r)
-            again = r.extend_until(T(op[2]))             # "doing it twice equals doing it once": the same object, called again
+            again = r.extend_until(T(op[2]), **kw)       # "doing it twice equals doing it once": the same object, called again
             extra = [] if (again is r and snap(again) == first) else [["second-call-differs", snap(again)]]
             return r, extra
         return t.extend_until(T(op[2]), prolong_chronon=False), []
